@@ -251,6 +251,34 @@ fn run(op: &str, a: &[&str]) -> String {
             let multi = Bls12::pairing_multi_product(&ps, &qsel) == prod;
             format!("joint_equals_product={} reuse_equal={} pairing_product={} pairing_multi_product={} is_one={}", joint == prod, joint == joint2, helper, multi, prod == Fq12::one())
         }
+        // histories of ONE wNAF context: `wnaf_reuse <a> <b> <k>` with P = [a]g1, Q = [b]g1; six results, each must be what a fresh context gives
+        "wnaf_reuse" => {
+            let mut p = G1::one();
+            p.mul_assign(fr_repr(a[0]));
+            let mut q = G1::one();
+            q.mul_assign(fr_repr(a[1]));
+            let k = fr_repr(a[2]);
+            let five = fr_repr("5");
+            let mut c1 = pairing_plus::Wnaf::new();
+            let r1 = c1.base(p, 1).scalar(k);            // small window
+            let r2 = c1.base(p, 100).scalar(k);          // same base, larger window
+            let r3 = c1.base(q, 1).scalar(k);            // other base, smaller window again
+            let r4 = c1.base(q, 1).scalar(five);         // same table, other scalar
+            let mut c2 = pairing_plus::Wnaf::new();
+            let s1 = c2.scalar(five).base(p);            // short scalar: small window
+            let s2 = c2.scalar(k).base(p);               // same base, long scalar: larger window
+            let s3 = c2.scalar(k).base(q);
+            let s4 = c2.scalar(fr_repr("0")).base(q);    // zero scalar after a long one
+            format!("{} | {} | {} | {} | {} | {} | {} | {}", g1a(&r1.into_affine()), g1a(&r2.into_affine()), g1a(&r3.into_affine()), g1a(&r4.into_affine()),
+                    g1a(&s1.into_affine()), g1a(&s2.into_affine()), g1a(&s3.into_affine()), g1a(&s4.into_affine()))
+        }
+        // batch normalization: `g1_batchnorm (X Y Z)*n` -> raw Jacobian triples after G1::batch_normalization, each with its membership verdict
+        "g1_batchnorm" => {
+            let n = a.len() / 3;
+            let mut v: Vec<G1> = (0..n).map(|i| G1::verif_from_raw(fq(a[3 * i]), fq(a[3 * i + 1]), fq(a[3 * i + 2]))).collect();
+            G1::batch_normalization(&mut v);
+            v.iter().map(|p| { let af = p.into_affine(); format!("{} zero={} member={}", g1j(p), p.is_zero(), af.in_subgroup()) }).collect::<Vec<_>>().join(" | ")
+        }
         "g1_mul" => { let mut p = G1::one(); p.mul_assign(fr_repr(a[0])); g1a(&p.into_affine()) }
         "g2_mul" => { let mut p = G2::one(); p.mul_assign(fr_repr(a[0])); g2a(&p.into_affine()) }
         // ---- full hash_to_curve / encode_to_curve (message and tag given as hex strings; "-" = empty)
